@@ -100,6 +100,15 @@ RoundsOk(r, s) == /\ r >= 1 /\ r <= 128
                   /\ \E m \in s.means : ~LtW(m, Two) /\ r * BitLenW(m) >= 128
 OkAllowed(r, s) == s.full /\ ~Definite(s) /\ RoundsOk(r, s)
 ErrAllowed(e, s) == e \in Errors /\ Holds(e, s)
+(* The error is also a text (Display, Error::description).  rand_jitter/src/error.rs words the five    *)
+(* conditions as below; a text that is one of these names that condition, which then has to hold like  *)
+(* the one named by the variant.  Any other wording is not interpreted here.                           *)
+TextNames == [t \in {"no timer available", "coarse timer", "timer not monotonic", "time delta variations too small",
+                      "too many stuck results"} |->
+                CASE t = "no timer available" -> "NoTimer" [] t = "coarse timer" -> "CoarseTimer"
+                  [] t = "timer not monotonic" -> "NotMonotonic" [] t = "time delta variations too small" -> "TinyVariations"
+                  [] OTHER -> "TooManyStuck"]
+TextAllowed(t, s) == t \in DOMAIN TextNames => Holds(TextNames[t], s)
 
 (* ---- the decision procedure of the code, on the same summary (code-shaped model) ---- *)
 (* returns <<"ok", r>> or <<"err", e>>; valid for complete runs without early exit      *)
